@@ -1482,6 +1482,18 @@ func (s fxSet) Equal(o *fxSet) bool {
 	return true
 }
 
+// ARGCACHE control: the keys of the first call are kept for all later calls
+type fxRot struct {
+	eval *rlwe.Evaluator
+}
+
+func (r *fxRot) Apply(ct *rlwe.Ciphertext, keys rlwe.EvaluationKeySet) {
+	if r.eval == nil {
+		r.eval = rlwe.NewEvaluator(nil, keys)
+	}
+	_ = ct
+}
+
 `
 
 // control runs scan over the fixture and demands a violation whose key contains each of the wanted substrings.
